@@ -158,6 +158,36 @@ pub fn run() -> i32 {
             Ok((got, diags)) => if got != want || !diags.is_empty() { rep.counterexample(text, &format!("{want:?}, no diagnostics"), &format!("{got:?} diagnostics={diags:?}")); },
         }
     }
+    // ---- link binding in EVERY section of one comment: overview, each @param / @returns message and the @see tags, with different and
+    //      partly unresolvable targets in each (a queue of computed bindings applied in a different order than it was filled swaps them)
+    {
+        let text = "module M\nstruct Key {}\nstruct Value {}\nstruct Cache {}\nstruct Other {}\ninterface I {\n    /// Looks up {@link Other} things.\n    /// @param k: the {@link Key} to look for, not a {@link Missing1}\n    /// @param d: a default {@link Value}\n    /// @returns: the {@link Value} found, or {@link Missing2}\n    /// @see Cache\n    /// @see Missing3\n    /// @see Key\n    get(k: Key, d: Value) -> Value\n}\n";
+        rep.case(true, || "link binding, all sections".to_owned());
+        let t2 = text.to_owned();
+        let out = std::panic::catch_unwind(move || {
+            let options = SliceOptions::default();
+            let state = slicec::compile_from_strings(&[&t2], Some(&options));
+            let show = |l: &Result<&dyn Entity, &Identifier>| match l { Ok(e) => e.parser_scoped_identifier(), Err(id) => format!("?{}", id.value) };
+            let of = |m: &Message| -> Vec<String> { m.value.iter().filter_map(|c| if let MessageComponent::Link(l) = c { Some(show(&l.linked_entity())) } else { None }).collect() };
+            let mut got: Vec<(String, Vec<String>)> = vec![];
+            if let Some(c) = state.ast.find_element::<Operation>("M::I::get").ok().and_then(|o| o.comment()) {
+                got.push(("overview".into(), c.overview.as_ref().map(|m| of(m)).unwrap_or_default()));
+                for p in &c.params { got.push((format!("param {}", p.identifier.value), of(&p.message))); }
+                for r in &c.returns { got.push(("returns".into(), of(&r.message))); }
+                got.push(("see".into(), c.see.iter().map(|s| show(&s.linked_entity())).collect()));
+            }
+            let errors = state.diagnostics.has_errors();
+            (got, errors)
+        });
+        let want: Vec<(String, Vec<String>)> = vec![
+            ("overview".into(), vec!["M::Other".into()]), ("param k".into(), vec!["M::Key".into(), "?Missing1".into()]), ("param d".into(), vec!["M::Value".into()]),
+            ("returns".into(), vec!["M::Value".into(), "?Missing2".into()]), ("see".into(), vec!["M::Cache".into(), "?Missing3".into(), "M::Key".into()]),
+        ];
+        match out {
+            Err(_) => rep.counterexample(text, "links", "PANIC"),
+            Ok((got, errors)) => if got != want || errors { rep.counterexample(text, &format!("{want:?}, warnings only"), &format!("{got:?} errors={errors}")); },
+        }
+    }
     // ---- identifiers and order of tags ---------------------------------------------------------------
     let ordered = vec![" Overview.".to_owned(), " @param b: the b".to_owned(), " @param a: the a".to_owned(), " @returns: the value".to_owned(), " @see U".to_owned(), " @see T".to_owned(), " @see M::S".to_owned()];
     rep.case(true, || "tag order".to_owned());
